@@ -1,6 +1,7 @@
 #!/usr/bin/env python3
 # run with python3-vt (has jsonschema)
-import json, glob, jsonschema, sys
+import json, glob, jsonschema, sys, os
+ROOT = os.path.dirname(os.path.dirname(os.path.abspath(__file__)))
 m = json.load(open('MANIFEST.json'))
 jsonschema.validate(m, json.load(open('/root/.vp/MANIFEST.schema.json')))
 es = json.load(open('/root/.vp/EVIDENCE.schema.json'))
@@ -11,5 +12,11 @@ for f in sorted(glob.glob('evidence/*.json')):
     except Exception as e:
         bad += 1
         print('INVALID', f, str(e)[:300])
+# extra rule stated in the schema's descriptions: a proof-level record must have discharged == obligations
+for _f in sorted(glob.glob(os.path.join(ROOT, 'evidence', '*.json'))):
+    _d = json.load(open(_f))
+    if _d.get('level') == 'proof' and _d['coverage'].get('discharged') != _d['coverage'].get('obligations'):
+        print('INVALID (proof-level: discharged != obligations):', _f)
+        bad += 1
 print('manifest ok; evidence files: %d, invalid: %d' % (len(glob.glob('evidence/*.json')), bad))
 sys.exit(1 if bad else 0)
